@@ -15,7 +15,7 @@ import (
 
 // C17 — truncated or ill-formed expressions are rejected by Compile.
 
-const ruleC17 = "rapid x exhaustive positions: a valid expression from the well-typed generators (node-set, boolean, arithmetic, string, regex fragments; verified to be accepted, else the generator is at fault and the check fails loudly), rendered to a token stream; then EVERY applicable position of every damage operator of the statement: cut after a binary operator; after a '/' that follows a step or after '//'; after '[', '(', an opening quote, a comma; delete one ']', ')', closing quote; rename a function to an unknown name; remove required arguments (per a table of XPath's required arities; optional arguments stay optional); replace an axis name by an unknown one; malform a qualified name (p:, p:q:r, :q). Literals contain no quote characters and one quote style per expression, so a deleted quote always leaves an odd count. Oracle: Compile(damaged) returns an error (and no expression, no panic). A lone leading '/' is never cut after ('/' is a valid expression). Non-trivial: every damaged string counts once, distinct by text; labels give the count per damage class."
+const ruleC17 = "rapid x exhaustive positions: a valid expression from the well-typed generators (node-set, boolean, arithmetic, string, regex fragments; verified to be accepted, else the generator is at fault and the check fails loudly) or, one time in six, from the unconstrained generator (kept when Compile accepts it), rendered to a token stream; then EVERY applicable position of every damage operator of the statement: cut after a binary operator; after a '/' that follows a step or after '//'; after '[', '(', an opening quote, a comma; delete one ']', ')', closing quote; rename a function to an unknown name; remove required arguments (per a table of XPath's required arities; optional arguments stay optional); replace an axis name by an unknown one; malform a qualified name (p:, p:q:r, :q). Literals contain no quote characters and one quote style per expression, so a deleted quote always leaves an odd count. Oracle: Compile(damaged) returns an error (and no expression, no panic). A lone leading '/' is never cut after ('/' is a valid expression). Non-trivial: every damaged string counts once, distinct by text; labels give the count per damage class."
 
 var uC17 = harness.NewUnit("C17", "rapid-damaged-expressions", ruleC17)
 
@@ -179,7 +179,14 @@ func TestC17Rapid(t *testing.T) {
 		// literals must not contain quote characters
 		g.StrLits = []string{"1", "2", "t", "10", "x y", "", "a", "b"}
 		var e xast.Expr
-		switch rapid.IntRange(0, 9).Draw(rt, "frag") {
+		wild := false
+		switch rapid.IntRange(0, 11).Draw(rt, "frag") {
+		case 10, 11:
+			// syntactically valid, semantically unconstrained (filter expressions, unions of
+			// groups, sequences, negations, any function in any position); kept when Compile
+			// accepts it
+			wild = true
+			e = g.WildExpr(2, xgen.WildOpts{})
 		case 0, 1, 2, 3:
 			e = anyNodeSetExpr(g, rt, ctx)
 		case 4, 5:
@@ -193,7 +200,10 @@ func TestC17Rapid(t *testing.T) {
 		}
 		toks := xast.Tokens(e)
 		orig := joinToks(toks)
-		if _, err, pan := harness.Compile(orig, nil, false); err != nil || pan != nil {
+		if _, err, pan := harness.Compile(orig, nil, false); wild && (err != nil || pan != nil) {
+			uC17.Skip()
+			return
+		} else if err != nil || pan != nil {
 			l := &harness.Live{Property: "C17", Check: "C17/rejected", Expr: orig, AST: e}
 			harness.Report(rt, uC17, l, harness.Failf("the undamaged expression compiles", fmt.Sprint(err, pan), "generator bug: a valid expression is rejected (see C10)"))
 		}
